@@ -118,6 +118,23 @@ CHECKS["C14"] = dict(
          "path_length / path_duration and judged by TLC.",
     design="4 C14", technique="TLC-enumerated input domain replayed into the real function; TLC validation against declarative TLA+ optimum sets")
 
+CHECKS["C17"] = dict(
+    text="spec/Stats.tla defines every statistic as an exact rational function of the presence relation (Latapy et al. stream-graph "
+         "definitions; the formulas the property spells out are used literally) and the inter-event distributions as gap histograms "
+         "of the restricted chronological stream with the mass / weighted-sum identities. TLC proves the [0,1] range and the "
+         "identities over every reachable state of bounded models; every reachable self-loop-free state (3-node and 2-node models) "
+         "and seeded random graphs are built on the real class, each statistic is called for every node / pair / instant and "
+         "judged by TLC as an exact rational against the observed presence and stream.",
+    design="4 C17", technique="TLA+ definitions as exact rationals; TLC invariants; TLC validation of recorded statistics on TLC-generated states")
+CHECKS["C19"] = dict(
+    text="spec/Guard.tla: the names the property lists must raise NetworkXNotImplemented and leave interactions, timelines, ids and "
+         "stream untouched; every other public callable inherited from networkx (found by introspection, arguments synthesised from "
+         "signatures, edge-creating and node-only usages of update) must leave the graph well formed (C03-C05 clauses relative to its "
+         "own observed presence, no adjacency entry without a timeline); on a frozen copy is_frozen holds and every mutator raises "
+         "and leaves the raw observation identical (the timed add family is known finding KF5). Exercised on every reachable state "
+         "of the bounded model (TLC also proves C03-C05 for every model action) and seeded random graphs; judged by TLC.",
+    design="4 C19", technique="TLA+ guard clauses; TLC invariants for model actions; TLC validation of recorded calls of the inherited API on TLC-generated states")
+
 NOT_YET = {}
 
 TITLES = {}
